@@ -52,7 +52,32 @@ fn pref_name(p: Option<IpVersion>) -> &'static str {
     }
 }
 
+fn replay(path: &str) -> i32 {
+    let doc: serde_json::Value = serde_json::from_str(&std::fs::read_to_string(path).expect("replay file")).expect("json");
+    let rp = doc.get("replay").cloned().unwrap_or(doc);
+    let input: Vec<SocketAddr> = rp.get("input").and_then(|x| x.as_array()).map(|a| a.iter().filter_map(|x| x.as_str().and_then(|s| s.parse().ok())).collect()).unwrap_or_default();
+    let prefer = match rp.get("prefer").and_then(|x| x.as_str()) {
+        Some("v4") => Some(IpVersion::V4),
+        Some("v6") => Some(IpVersion::V6),
+        _ => None,
+    };
+    let port = rp.get("port").and_then(|x| x.as_u64()).map(|p| p as u16);
+    let got = sort_preferred(input.clone(), prefer, port);
+    let want = reference(&input, prefer, port);
+    println!("input {input:?} prefer {} port {port:?}\n  got  {got:?}\n  want {want:?}", pref_name(prefer));
+    if got == want {
+        println!("replay holds");
+        0
+    } else {
+        println!("VIOLATION property=C16 replay={path}");
+        1
+    }
+}
+
 pub fn run(args: &Args) -> i32 {
+    if let Some(p) = &args.replay {
+        return replay(p);
+    }
     let mut run = Run::new("C16", args.tier, "model_checking");
     let alpha = alphabet();
     let max_len = if args.tier.is_thorough() { 10 } else { 8 };
